@@ -1,5 +1,730 @@
 import Ink.Cli
+import Proofs.C14
 namespace Ink
 namespace C20
+open Ink Json
+
+/-! ### 1. the tool's string escaping is inverted by the parser -/
+
+theorem parse_escChar (fuel : Nat) (c : Char) (tail acc : List Char) :
+    Json.parseStrBody (fuel + 1) (Cli.escChar c ++ tail) acc =
+      Json.parseStrBody fuel tail (c :: acc) := by
+  unfold Cli.escChar
+  split
+  · rename_i h; subst h; exact Json.parseStrBody.eq_5 ..
+  split
+  · rename_i h; subst h; exact Json.parseStrBody.eq_6 ..
+  split
+  · rename_i h; subst h; exact Json.parseStrBody.eq_10 ..
+  split
+  · rename_i h; subst h; exact Json.parseStrBody.eq_11 ..
+  split
+  · rename_i h; subst h; exact Json.parseStrBody.eq_12 ..
+  split
+  · rename_i h
+    have h1 : c.toNat / 16 < 16 := by omega
+    have h2 : c.toNat % 16 < 16 := by omega
+    simp only [List.cons_append, List.nil_append]
+    rw [Json.parseStrBody.eq_4, C14.hexDigit_zero,
+      C14.hex4_hexDigit 0 0 _ _ (by omega) (by omega) h1 h2]
+    have h3 : ((0 * 16 + 0) * 16 + c.toNat / 16) * 16 + c.toNat % 16 = c.toNat := by omega
+    simp only [h3, Char.ofNat_toNat]
+    rw [if_neg (by omega), if_neg (by omega)]
+  · rename_i hq hb _ _ _ h20
+    exact C14.parse_plain fuel c tail acc hq hb h20
+
+theorem escChar_length_pos (c : Char) : 0 < (Cli.escChar c).length := by
+  unfold Cli.escChar
+  repeat' split
+  all_goals simp
+
+theorem esc_cons (c : Char) (s : List Char) : Cli.esc (c :: s) = Cli.escChar c ++ Cli.esc s := by
+  simp [Cli.esc]
+
+theorem esc_roundtrip_acc (s rest acc : List Char) (fuel : Nat) (h : fuel > (Cli.esc s).length) :
+    Json.parseStrBody fuel (Cli.esc s ++ '"' :: rest) acc = some (acc.reverse ++ s, rest) := by
+  induction s generalizing fuel acc with
+  | nil =>
+    cases fuel with
+    | zero => omega
+    | succ f => simp [Cli.esc, Json.parseStrBody.eq_3]
+  | cons c s ih =>
+    have hl := escChar_length_pos c
+    rw [esc_cons, List.length_append] at h
+    cases fuel with
+    | zero => omega
+    | succ f =>
+      rw [esc_cons, List.append_assoc, parse_escChar, ih _ _ (by omega)]
+      simp
+
+/-- 1. Every string — control characters, quotes, backslashes, any Unicode — is read back from its
+    escaped form. -/
+theorem esc_roundtrip (s rest : List Char) (fuel : Nat) (h : fuel > (Cli.esc s).length) :
+    Json.parseStrBody fuel (Cli.esc s ++ '"' :: rest) [] = some (s, rest) := by
+  simpa using esc_roundtrip_acc s rest [] fuel h
+
+/-! ### 2. compositional lemmas about the parser -/
+
+theorem skipWs_space (inp : List Char) : skipWs (' ' :: inp) = skipWs inp := by
+  simp [skipWs, isWs]
+
+theorem parseValue_space (fuel : Nat) (inp : List Char) :
+    parseValue fuel (' ' :: inp) = parseValue fuel inp := by
+  cases fuel with
+  | zero => simp [parseValue]
+  | succ f => rw [parseValue, parseValue, skipWs_space]
+
+theorem parseMembers_space (fuel : Nat) (inp : List Char) (acc) :
+    parseMembers fuel (' ' :: inp) acc = parseMembers fuel inp acc := by
+  cases fuel with
+  | zero => simp [parseMembers]
+  | succ f => rw [parseMembers, parseMembers, skipWs_space]
+
+theorem skipWs_quote (r : List Char) : skipWs ('"' :: r) = '"' :: r := by
+  simp [skipWs, isWs]
+
+theorem parseValue_str (f : Nat) (s rest : List Char) :
+    parseValue (f + 1) ('"' :: Cli.esc s ++ '"' :: rest) = some (.str (String.ofList s), rest) := by
+  rw [parseValue]
+  simp only [List.cons_append, skipWs_quote]
+  rw [esc_roundtrip s rest _ (by simp; omega)]
+
+
+/-! numbers: `toString n` for a natural number -/
+
+theorem isDigit_iff (c : Char) : Json.isDigit c = c.isDigit := by
+  simp only [Json.isDigit, Char.isDigit, C14.char_le_iff]
+  have h0 : '0'.toNat = 48 := by decide
+  have h9 : '9'.toNat = 57 := by decide
+  rw [h0, h9]
+  simp only [ge_iff_le, UInt32.le_iff_toNat_le]
+  rfl
+
+theorem takeDigits_append (ds rest : List Char) (h : ∀ c ∈ ds, Json.isDigit c = true)
+    (hr : ∀ c r, rest = c :: r → Json.isDigit c = false) :
+    takeDigits (ds ++ rest) = (ds, rest) := by
+  induction ds with
+  | nil =>
+    cases rest with
+    | nil => rfl
+    | cons c r => simp [takeDigits, hr c r rfl]
+  | cons d ds ih =>
+    have hd := h d (by simp)
+    simp only [List.cons_append, takeDigits, hd, if_true]
+    rw [ih (fun c hc => h c (by simp [hc]))]
+
+theorem digitsToNat_eq (ds : List Char) : Json.digitsToNat ds = Nat.ofDigitChars 10 ds 0 := by
+  unfold Json.digitsToNat Nat.ofDigitChars
+  congr 1
+  funext n c
+  omega
+
+theorem head_toDigits (n : Nat) (hn : 0 < n) : (Nat.toDigits 10 n).head? ≠ some '0' := by
+  induction n using Nat.strongRecOn with
+  | _ n ih =>
+    rw [Nat.toDigits_eq_if (by omega)]
+    split
+    · rename_i h
+      have : ∀ m, m < 10 → 0 < m → [Nat.digitChar m].head? ≠ some '0' := by decide
+      exact this n h hn
+    · rename_i h
+      have hne : Nat.toDigits 10 (n / 10) ≠ [] := Nat.toDigits_ne_nil
+      have := ih (n / 10) (by omega) (by omega)
+      cases hh : Nat.toDigits 10 (n / 10) with
+      | nil => exact (hne hh).elim
+      | cons x y => rw [hh] at this; exact this
+
+theorem parseNumber_nat (n : Nat) (rest : List Char) :
+    parseNumber (Nat.toDigits 10 n ++ '}' :: rest) = some (.num n, '}' :: rest) := by
+  have hdig : ∀ c ∈ Nat.toDigits 10 n, Json.isDigit c = true := fun c hc => by
+    rw [isDigit_iff]; exact Nat.isDigit_of_mem_toDigits (by omega) (by omega) hc
+  have hne : Nat.toDigits 10 n ≠ [] := Nat.toDigits_ne_nil
+  have htd : takeDigits (Nat.toDigits 10 n ++ '}' :: rest) = (Nat.toDigits 10 n, '}' :: rest) :=
+    takeDigits_append _ _ hdig (fun c r h => by cases h; decide)
+  have hval : Json.digitsToNat (Nat.toDigits 10 n) = n := by
+    rw [digitsToNat_eq]; exact Nat.ofDigitChars_ten_toDigits
+  have hlead : ¬ ((Nat.toDigits 10 n).length > 1 ∧ (Nat.toDigits 10 n).head? = some '0') := by
+    intro ⟨h1, h2⟩
+    rcases Nat.eq_zero_or_pos n with h0 | hp
+    · subst h0; simp at h1
+    · exact head_toDigits n hp h2
+  obtain ⟨c, t, hct⟩ : ∃ c t, Nat.toDigits 10 n = c :: t := by
+    cases h : Nat.toDigits 10 n with
+    | nil => exact (hne h).elim
+    | cons c t => exact ⟨c, t, rfl⟩
+  have hc : c ≠ '-' := by
+    intro h
+    have := hdig c (by rw [hct]; simp)
+    rw [h] at this; revert this; decide
+  unfold parseNumber
+  rw [hct] at htd hlead hval
+  simp only [hct, List.cons_append] at htd ⊢
+  have hm : parseNumber.match_1 (fun _ => Bool × List Char) (c :: (t ++ '}' :: rest))
+      (fun r => (true, r)) (fun r => (false, r)) = (false, c :: (t ++ '}' :: rest)) := by
+    split
+    · rename_i h; cases h; exact (hc rfl).elim
+    · rfl
+  rw [hm]
+  simp only [htd]
+  rw [if_neg (by simp), if_neg hlead]
+  simp [hval]
+
+
+theorem parseValue_nat (f n : Nat) (rest : List Char) :
+    parseValue (f + 1) (Nat.toDigits 10 n ++ '}' :: rest) = some (.num n, '}' :: rest) := by
+  have hne : Nat.toDigits 10 n ≠ [] := Nat.toDigits_ne_nil
+  obtain ⟨c, t, hct⟩ : ∃ c t, Nat.toDigits 10 n = c :: t := by
+    cases h : Nat.toDigits 10 n with
+    | nil => exact (hne h).elim
+    | cons c t => exact ⟨c, t, rfl⟩
+  have hd : Json.isDigit c = true := by
+    rw [isDigit_iff]; exact Nat.isDigit_of_mem_toDigits (b := 10) (n := n) (by omega) (by omega) (by rw [hct]; simp)
+  have hnum := parseNumber_nat n rest
+  rw [hct] at hnum
+  have hws : skipWs (c :: t ++ '}' :: rest) = c :: t ++ '}' :: rest := by
+    have : isWs c = false := by
+      have : ∀ c, Json.isDigit c = true → isWs c = false := by
+        intro c h
+        simp only [Json.isDigit, Bool.and_eq_true, decide_eq_true_eq, C14.char_le_iff] at h
+        have h0 : '0'.toNat = 48 := by decide
+        rw [h0] at h
+        simp only [isWs, Bool.or_eq_false_iff, decide_eq_false_iff_not]
+        refine ⟨⟨⟨?_, ?_⟩, ?_⟩, ?_⟩ <;> (intro hc; subst hc; revert h; decide)
+      exact this c hd
+    simp [skipWs, this]
+  rw [hct, parseValue, hws]
+  simp only [List.cons_append] at hnum ⊢
+  split
+  case h_1 => rename_i h; cases h
+  case h_2 => rename_i h; injection h with h1 _; subst h1; exact absurd hd (by decide)
+  case h_3 => rename_i h; injection h with h1 _; subst h1; exact absurd hd (by decide)
+  case h_4 => rename_i h; injection h with h1 _; subst h1; exact absurd hd (by decide)
+  case h_5 => rename_i h; injection h with h1 _; subst h1; exact absurd hd (by decide)
+  case h_6 => rename_i h; injection h with h1 _; subst h1; exact absurd hd (by decide)
+  case h_7 => rename_i h; injection h with h1 _; subst h1; exact absurd hd (by decide)
+  case h_8 =>
+    rename_i c' r' _ _ _ _ _ _ h
+    injection h with h1 h2; subst h1; subst h2
+    rw [if_pos (Or.inr hd)]; exact hnum
+
+/-! values, lists of values, objects -/
+
+/-- `txt` is a rendering of the value `v`: it starts with `"`, `{` or `[`, and the parser reads `v`
+    from it, whatever follows, with fuel at least the length of the text. -/
+def Parses (txt : List Char) (v : Json) : Prop :=
+  (∃ c t, txt = c :: t ∧ (c = '"' ∨ c = '{' ∨ c = '[')) ∧
+  ∀ fuel rest, fuel ≥ txt.length → parseValue fuel (txt ++ rest) = some (v, rest)
+
+/-- the text of a quoted string, as a list of characters -/
+def qL (s : List Char) : List Char := '"' :: Cli.esc s ++ ['"']
+
+theorem Parses_str (s : List Char) : Parses (qL s) (.str (String.ofList s)) := by
+  refine ⟨⟨'"', _, rfl, Or.inl rfl⟩, ?_⟩
+  intro fuel rest hf
+  cases fuel with
+  | zero => simp [qL] at hf
+  | succ f =>
+    have := parseValue_str f s rest
+    simpa [qL] using this
+
+/-- items separated by `", "` -/
+def sepL : List (List Char) → List Char
+  | [] => []
+  | [a] => a
+  | a :: b :: l => a ++ ',' :: ' ' :: sepL (b :: l)
+
+theorem skipWs_head (c : Char) (t : List Char) (h : c = '"' ∨ c = '{' ∨ c = '[' ∨ c = ',' ∨ c = ']' ∨ c = '}' ∨ c = ':') :
+    skipWs (c :: t) = c :: t := by
+  rcases h with h | h | h | h | h | h | h <;> subst h <;> simp [skipWs, isWs]
+
+theorem parseElems_space (fuel : Nat) (inp : List Char) (acc) :
+    parseElems fuel (' ' :: inp) acc = parseElems fuel inp acc := by
+  cases fuel with
+  | zero => simp [parseElems]
+  | succ f => rw [parseElems, parseElems, parseValue_space]
+
+theorem parseElems_sep (ps : List (List Char × Json)) (h : ∀ p ∈ ps, Parses p.1 p.2) (hne : ps ≠ [])
+    (fuel : Nat) (rest : List Char) (acc : List Json)
+    (hf : fuel ≥ (sepL (ps.map Prod.fst)).length + 1) :
+    parseElems fuel (sepL (ps.map Prod.fst) ++ ']' :: rest) acc =
+      some (.arr (acc.reverse ++ ps.map Prod.snd), rest) := by
+  induction ps generalizing fuel acc with
+  | nil => exact (hne rfl).elim
+  | cons p ps ih =>
+    cases fuel with
+    | zero => omega
+    | succ f =>
+      have hp := (h p (by simp)).2
+      cases ps with
+      | nil =>
+        simp only [List.map_cons, List.map_nil, sepL] at hf ⊢
+        rw [parseElems, hp f _ (by omega)]
+        simp only [skipWs_head ']' rest (by simp)]
+        simp
+      | cons p2 ps =>
+        simp only [List.map_cons, sepL, List.length_append, List.length_cons] at hf ⊢
+        rw [parseElems, List.append_assoc, hp f _ (by omega)]
+        simp only [List.cons_append, skipWs_head ',' _ (by simp)]
+        rw [parseElems_space]
+        have := ih (fun q hq => h q (by simp [hq])) (by simp) f (p.2 :: acc)
+          (by simp only [List.map_cons]; omega)
+        simp only [List.map_cons] at this
+        rw [this]
+        simp
+
+theorem sepL_head (ps : List (List Char × Json)) (h : ∀ p ∈ ps, Parses p.1 p.2) (hne : ps ≠ []) :
+    ∃ c t, sepL (ps.map Prod.fst) = c :: t ∧ (c = '"' ∨ c = '{' ∨ c = '[') := by
+  cases ps with
+  | nil => exact (hne rfl).elim
+  | cons p ps =>
+    obtain ⟨c, t, hct, hc⟩ := (h p (by simp)).1
+    cases ps with
+    | nil => exact ⟨c, t, by simp [sepL, hct], hc⟩
+    | cons p2 ps =>
+      exact ⟨c, t ++ ',' :: ' ' :: sepL ((p2 :: ps).map Prod.fst), by simp [sepL, hct], hc⟩
+
+theorem Parses_arr (ps : List (List Char × Json)) (h : ∀ p ∈ ps, Parses p.1 p.2) :
+    Parses ('[' :: sepL (ps.map Prod.fst) ++ [']']) (.arr (ps.map Prod.snd)) := by
+  refine ⟨⟨'[', _, rfl, Or.inr (Or.inr rfl)⟩, ?_⟩
+  intro fuel rest hf
+  cases fuel with
+  | zero => simp at hf
+  | succ f =>
+    rw [parseValue]
+    simp only [List.cons_append, skipWs_head '[' _ (by simp)]
+    by_cases hne : ps = []
+    · subst hne
+      simp [sepL, skipWs_head ']' rest (by simp)]
+    · obtain ⟨c, t, hct, hc⟩ := sepL_head ps h hne
+      have hel := parseElems_sep ps h hne f rest [] (by simp at hf; omega)
+      simp only [List.append_assoc, List.cons_append, List.nil_append]
+      rw [hct] at hel ⊢
+      simp only [List.cons_append] at hel ⊢
+      rw [skipWs_head c _ (by rcases hc with h | h | h <;> simp [h])]
+      rcases hc with hc | hc | hc <;> subst hc <;> simpa using hel
+
+theorem members_step (f : Nat) (k t after : List Char) (v : Json) (acc : List (String × Json))
+    (hv : parseValue f (t ++ after) = some (v, after)) :
+    parseMembers (f + 1) (qL k ++ (':' :: ' ' :: (t ++ after))) acc =
+      match skipWs after with
+      | ',' :: r4 => parseMembers f r4 ((String.ofList k, v) :: acc)
+      | '}' :: r4 => some (Json.obj (dedupKeys ((String.ofList k, v) :: acc).reverse), r4)
+      | _ => none := by
+  rw [parseMembers]
+  simp only [qL, List.cons_append, List.append_assoc, List.nil_append, skipWs_quote]
+  rw [esc_roundtrip k _ _ (by simp only [List.length_append]; omega)]
+  simp only [skipWs_head ':' _ (by simp)]
+  rw [parseValue_space, hv]
+  rfl
+
+theorem members_more (f : Nat) (k t more : List Char) (v : Json) (acc : List (String × Json))
+    (hv : parseValue f (t ++ ',' :: ' ' :: more) = some (v, ',' :: ' ' :: more)) :
+    parseMembers (f + 1) (qL k ++ (':' :: ' ' :: (t ++ ',' :: ' ' :: more))) acc =
+      parseMembers f more ((String.ofList k, v) :: acc) := by
+  rw [members_step f k t _ v acc hv, skipWs_head ',' _ (by simp)]
+  simp only [parseMembers_space]
+
+theorem members_last (f : Nat) (k t rest : List Char) (v : Json) (acc : List (String × Json))
+    (hv : parseValue f (t ++ '}' :: rest) = some (v, '}' :: rest)) :
+    parseMembers (f + 1) (qL k ++ (':' :: ' ' :: (t ++ '}' :: rest))) acc =
+      some (Json.obj (dedupKeys ((String.ofList k, v) :: acc).reverse), rest) := by
+  rw [members_step f k t _ v acc hv, skipWs_head '}' _ (by simp)]
+  simp
+
+theorem qL_length (k : List Char) : (qL k).length = (Cli.esc k).length + 2 := by simp [qL]
+
+/-- `{"k": value}` -/
+theorem Parses_obj1 (k t : List Char) (v : Json) (h : Parses t v) :
+    Parses ('{' :: (qL k ++ (':' :: ' ' :: (t ++ ['}'])))) (.obj [(String.ofList k, v)]) := by
+  refine ⟨⟨'{', _, rfl, Or.inr (Or.inl rfl)⟩, ?_⟩
+  intro fuel rest hf
+  simp only [List.length_cons, List.length_append, qL_length, List.length_nil] at hf
+  obtain ⟨f, rfl⟩ : ∃ f, fuel = f + 2 := ⟨fuel - 2, by omega⟩
+  rw [parseValue]
+  simp only [List.cons_append, List.append_assoc, List.nil_append, skipWs_head '{' _ (by simp)]
+  have := members_last f k t rest v [] (h.2 f _ (by omega))
+  simp only [qL, List.cons_append, List.append_assoc, List.nil_append, skipWs_quote] at this ⊢
+  rw [this]
+  simp [dedupKeys, insertKey]
+
+
+theorem Parses_list {α : Type} (xs : List α) (f : α → List Char) (g : α → Json)
+    (h : ∀ x ∈ xs, Parses (f x) (g x)) :
+    Parses ('[' :: sepL (xs.map f) ++ [']']) (.arr (xs.map g)) := by
+  have := Parses_arr (xs.map (fun x => (f x, g x))) (by
+    intro p hp
+    obtain ⟨x, hx, rfl⟩ := List.mem_map.1 hp
+    exact h x hx)
+  simpa [List.map_map, Function.comp_def] using this
+
+/-- the text of an array of strings -/
+def strsL (ss : List (List Char)) : List Char := '[' :: sepL (ss.map qL) ++ [']']
+
+theorem Parses_strs (ss : List (List Char)) :
+    Parses (strsL ss) (.arr (ss.map (fun s => .str (String.ofList s)))) :=
+  Parses_list ss qL _ (fun s _ => Parses_str s)
+
+/-- the text of one choice -/
+def choiceL (text : List Char) (tags : List (List Char)) : List Char :=
+  if tags.isEmpty then '{' :: (qL "text".toList ++ (':' :: ' ' :: (qL text ++ ['}'])))
+  else '{' :: (qL "text".toList ++ (':' :: ' ' :: (qL text ++ ',' :: ' ' ::
+    (qL "tags".toList ++ (':' :: ' ' :: (strsL tags ++ ',' :: ' ' ::
+      (qL "tag_count".toList ++ (':' :: ' ' :: (Nat.toDigits 10 tags.length ++ ['}'])))))))))
+
+/-- the value of one choice -/
+def choiceJson (c : String × List String) : Json :=
+  if c.2.isEmpty then .obj [("text", .str c.1)]
+  else .obj [("text", .str c.1), ("tags", .arr (c.2.map .str)), ("tag_count", .num c.2.length)]
+
+theorem Parses_choice (text : String) (tags : List String) :
+    Parses (choiceL text.toList (tags.map String.toList)) (choiceJson (text, tags)) := by
+  unfold choiceL choiceJson
+  by_cases he : tags = []
+  · subst he
+    simp only [List.map_nil, List.isEmpty_nil, if_true]
+    have := Parses_obj1 "text".toList _ _ (Parses_str text.toList)
+    simpa [String.ofList_toList] using this
+  · have he' : (tags.map String.toList).isEmpty = false := by
+      cases tags with
+      | nil => exact (he rfl).elim
+      | cons a b => rfl
+    have he'' : tags.isEmpty = false := by
+      cases tags with
+      | nil => exact (he rfl).elim
+      | cons a b => rfl
+    simp only [he', he'', Bool.false_eq_true, if_false]
+    refine ⟨⟨'{', _, rfl, Or.inr (Or.inl rfl)⟩, ?_⟩
+    intro fuel rest hf
+    simp only [List.length_cons, List.length_append, List.length_nil] at hf
+    obtain ⟨f, rfl⟩ : ∃ f, fuel = f + 5 := ⟨fuel - 5, by omega⟩
+    rw [parseValue]
+    simp only [List.cons_append, List.append_assoc, List.nil_append, skipWs_head '{' _ (by simp)]
+    have h1 := (Parses_str text.toList).2 (f + 3)
+    have h2 := (Parses_strs (tags.map String.toList)).2 (f + 2)
+    have h3 := parseValue_nat f (tags.map String.toList).length rest
+    have m3 := members_last (f + 1) "tag_count".toList _ rest _
+      [(String.ofList "tags".toList, Json.arr ((tags.map String.toList).map (fun s => .str (String.ofList s)))),
+       (String.ofList "text".toList, .str (String.ofList text.toList))] h3
+    have m2 := members_more (f + 2) "tags".toList (strsL (tags.map String.toList))
+      (qL "tag_count".toList ++ (':' :: ' ' :: (Nat.toDigits 10 (tags.map String.toList).length ++ '}' :: rest)))
+      _ [(String.ofList "text".toList, .str (String.ofList text.toList))] (h2 _ (by omega))
+    have m1 := members_more (f + 3) "text".toList (qL text.toList)
+      (qL "tags".toList ++ (':' :: ' ' :: (strsL (tags.map String.toList) ++ ',' :: ' ' ::
+        (qL "tag_count".toList ++ (':' :: ' ' :: (Nat.toDigits 10 (tags.map String.toList).length ++ '}' :: rest))))))
+      _ [] (h1 _ (by omega))
+    rw [m2, m3] at m1
+    have hq : ∀ r, skipWs (qL "text".toList ++ r) = qL "text".toList ++ r := by
+      intro r; simp only [qL, List.cons_append, skipWs_quote]
+    rw [hq]
+    have hq2 : ∀ r, ∃ r', qL "text".toList ++ r = '"' :: r' := fun r => ⟨_, by simp only [qL, List.cons_append]; rfl⟩
+    obtain ⟨r', hr'⟩ := hq2 (':' :: ' ' :: (qL text.toList ++ ',' :: ' ' :: (qL "tags".toList ++ ':' :: ' ' :: (strsL (List.map String.toList tags) ++ ',' :: ' ' :: (qL "tag_count".toList ++ ':' :: ' ' :: (Nat.toDigits 10 (List.map String.toList tags).length ++ '}' :: rest))))))
+    rw [hr'] at m1 ⊢
+    show parseMembers (f + 3 + 1) ('"' :: r') [] = _
+    rw [m1]
+    simp [dedupKeys, insertKey, String.ofList_toList]
+
+
+/-! ### 3. from texts to the tool's strings, through the real `Json.parse` -/
+
+theorem parse_of_Parses (txt : List Char) (v : Json) (h : Parses txt v) : Json.parse txt = some v := by
+  have := h.2 (2 * txt.length + 2) [] (by omega)
+  rw [List.append_nil] at this
+  simp [Json.parse, this, skipWs]
+
+theorem q_toList (s : String) : (Cli.q s).toList = qL s.toList := by
+  simp [Cli.q, qL, String.toList_ofList]
+
+theorem commaSep_toList (l : List String) : (Cli.commaSep l).toList = sepL (l.map String.toList) := by
+  unfold Cli.commaSep
+  induction l with
+  | nil => simp [sepL]
+  | cons a l ih =>
+    cases l with
+    | nil => simp [sepL]
+    | cons b l =>
+      rw [String.intercalate_cons_cons, String.toList_append, String.toList_append, ih]
+      simp [sepL]
+
+/-- 2. a quoted string is the JSON string with that content -/
+theorem q_parses (s : String) : Json.parse (Cli.q s).toList = some (.str s) := by
+  rw [q_toList]
+  have := parse_of_Parses _ _ (Parses_str s.toList)
+  simpa [String.ofList_toList] using this
+
+theorem lit_text : "{\"text\": ".toList = '{' :: (qL "text".toList ++ [':', ' ']) := by decide
+theorem lit_cmd : "{\"cmdOutput\": ".toList = '{' :: (qL "cmdOutput".toList ++ [':', ' ']) := by decide
+theorem lit_close : "}".toList = ['}'] := by decide
+theorem lit_tags : "{\"tags\": [".toList = '{' :: (qL "tags".toList ++ [':', ' ', '[']) := by decide
+theorem lit_issues : "{\"issues\": [".toList = '{' :: (qL "issues".toList ++ [':', ' ', '[']) := by decide
+theorem lit_choices : "{\"choices\": [".toList = '{' :: (qL "choices".toList ++ [':', ' ', '[']) := by decide
+theorem lit_close2 : "]}".toList = [']', '}'] := by decide
+theorem lit_tags2 : ", \"tags\": [".toList = ',' :: ' ' :: (qL "tags".toList ++ [':', ' ', '[']) := by decide
+theorem lit_count : "], \"tag_count\": ".toList = ']' :: ',' :: ' ' :: (qL "tag_count".toList ++ [':', ' ']) := by decide
+
+theorem fmtText_toList (t : String) :
+    (Cli.fmtText t).toList = '{' :: (qL "text".toList ++ (':' :: ' ' :: (qL t.toList ++ ['}']))) := by
+  simp only [Cli.fmtText, String.toList_append, q_toList, lit_text, lit_close, List.cons_append,
+    List.append_assoc, List.nil_append]
+
+theorem fmtText_parses (t : String) :
+    Json.parse (Cli.fmtText t).toList = some (.obj [("text", .str t)]) := by
+  rw [fmtText_toList]
+  have := parse_of_Parses _ _ (Parses_obj1 "text".toList _ _ (Parses_str t.toList))
+  simpa [String.ofList_toList] using this
+
+theorem fmtCmdOutput_parses (m : String) :
+    Json.parse (Cli.fmtCmdOutput m).toList = some (.obj [("cmdOutput", .str m)]) := by
+  have h : (Cli.fmtCmdOutput m).toList =
+      '{' :: (qL "cmdOutput".toList ++ (':' :: ' ' :: (qL m.toList ++ ['}']))) := by
+    simp only [Cli.fmtCmdOutput, String.toList_append, q_toList, lit_cmd, lit_close, List.cons_append,
+      List.append_assoc, List.nil_append]
+  rw [h]
+  have := parse_of_Parses _ _ (Parses_obj1 "cmdOutput".toList _ _ (Parses_str m.toList))
+  simpa [String.ofList_toList] using this
+
+theorem strs_toList (ss : List String) :
+    '[' :: ((Cli.commaSep (ss.map Cli.q)).toList ++ [']']) = strsL (ss.map String.toList) := by
+  simp only [commaSep_toList, strsL, List.map_map, List.cons_append]
+  congr 3
+  apply List.map_congr_left
+  intro s _
+  simp [q_toList]
+
+theorem map_str (ss : List String) :
+    (ss.map String.toList).map (fun s => Json.str (String.ofList s)) = ss.map Json.str := by
+  simp [List.map_map, Function.comp_def, String.ofList_toList]
+
+theorem fmtTags_parses (ts : List String) :
+    Json.parse (Cli.fmtTags ts).toList = some (.obj [("tags", .arr (ts.map .str))]) := by
+  have h : (Cli.fmtTags ts).toList =
+      '{' :: (qL "tags".toList ++ (':' :: ' ' :: (strsL (ts.map String.toList) ++ ['}']))) := by
+    rw [← strs_toList]
+    simp only [Cli.fmtTags, String.toList_append, lit_tags, lit_close2, List.cons_append,
+      List.append_assoc, List.nil_append]
+  rw [h]
+  have := parse_of_Parses _ _ (Parses_obj1 "tags".toList _ _ (Parses_strs (ts.map String.toList)))
+  rw [map_str] at this
+  simpa [String.ofList_toList] using this
+
+theorem fmtIssues_parses (ms : List String) :
+    Json.parse (Cli.fmtIssues ms).toList = some (.obj [("issues", .arr (ms.map .str))]) := by
+  have h : (Cli.fmtIssues ms).toList =
+      '{' :: (qL "issues".toList ++ (':' :: ' ' :: (strsL (ms.map String.toList) ++ ['}']))) := by
+    rw [← strs_toList]
+    simp only [Cli.fmtIssues, String.toList_append, lit_issues, lit_close2, List.cons_append,
+      List.append_assoc, List.nil_append]
+  rw [h]
+  have := parse_of_Parses _ _ (Parses_obj1 "issues".toList _ _ (Parses_strs (ms.map String.toList)))
+  rw [map_str] at this
+  simpa [String.ofList_toList] using this
+
+theorem fmtChoice_toList (text : String) (tags : List String) :
+    (Cli.fmtChoice text tags).toList = choiceL text.toList (tags.map String.toList) := by
+  unfold Cli.fmtChoice choiceL
+  cases tags with
+  | nil =>
+    simp only [List.isEmpty_nil, if_true, List.map_nil, String.toList_append, q_toList, lit_text,
+      lit_close, List.cons_append, List.append_assoc, List.nil_append]
+  | cons a b =>
+    simp only [List.isEmpty_cons, Bool.false_eq_true, if_false, List.map_cons]
+    have := strs_toList (a :: b)
+    simp only [List.map_cons] at this
+    rw [← this]
+    simp only [String.toList_append, q_toList, lit_text, lit_close, lit_tags2, lit_count,
+      Nat.toString_eq_repr, Nat.toList_repr, List.cons_append, List.append_assoc, List.nil_append,
+      List.length_cons, List.length_map]
+
+theorem fmtChoices_parses (cs : List (String × List String)) :
+    Json.parse (Cli.fmtChoices cs).toList = some (.obj [("choices", .arr (cs.map choiceJson))]) := by
+  have h : (Cli.fmtChoices cs).toList =
+      '{' :: (qL "choices".toList ++ (':' :: ' ' ::
+        (('[' :: sepL (cs.map (fun c => choiceL c.1.toList (c.2.map String.toList))) ++ [']']) ++ ['}']))) := by
+    simp only [Cli.fmtChoices, String.toList_append, lit_choices, lit_close2, commaSep_toList,
+      List.map_map, Function.comp_def, fmtChoice_toList, List.cons_append,
+      List.append_assoc, List.nil_append]
+  rw [h]
+  have := parse_of_Parses _ _ (Parses_obj1 "choices".toList _ _
+    (Parses_list cs (fun c => choiceL c.1.toList (c.2.map String.toList)) choiceJson
+      (fun c _ => Parses_choice c.1 c.2)))
+  simpa [String.ofList_toList] using this
+
+/-- (`Json` has `BEq` only, and evaluating `Json.parse` by `rfl`/`decide` on a literal does not terminate in
+    reasonable time, so the three constants are evaluated by `simp`.) -/
+theorem needInput_parses : Json.parse Cli.needInput.toList = some (.obj [("needInput", .bool true)]) := by
+  simp [Cli.needInput, Json.parse, parseValue, parseMembers, skipWs, isWs, parseStrBody, dedupKeys, insertKey]
+theorem endOfStory_parses : Json.parse Cli.endOfStory.toList = some (.obj [("end", .bool true)]) := by
+  simp [Cli.endOfStory, Json.parse, parseValue, parseMembers, skipWs, isWs, parseStrBody, dedupKeys, insertKey]
+theorem closed_parses : Json.parse Cli.closed.toList = some (.obj [("close", .bool true)]) := by
+  simp [Cli.closed, Json.parse, parseValue, parseMembers, skipWs, isWs, parseStrBody, dedupKeys, insertKey]
+
+/-! ### 4. every standard-output piece of a JSON-mode session is a well-formed line -/
+
+/-- The documented line kinds (with the types of their values). -/
+def DocumentedKind (j : Json) : Prop :=
+  (∃ t : String, j = .obj [("text", .str t)]) ∨
+  (∃ ts : List String, j = .obj [("tags", .arr (ts.map .str))]) ∨
+  (∃ cs : List (String × List String), j = .obj [("choices", .arr (cs.map choiceJson))]) ∨
+  j = .obj [("needInput", .bool true)] ∨
+  (∃ ms : List String, j = .obj [("issues", .arr (ms.map .str))]) ∨
+  (∃ m : String, j = .obj [("cmdOutput", .str m)]) ∨
+  j = .obj [("end", .bool true)] ∨
+  j = .obj [("close", .bool true)]
+
+/-- a documented kind is an object with exactly one of the documented key sets -/
+theorem DocumentedKind.keys {j : Json} (h : DocumentedKind j) :
+    ∃ kvs, j = .obj kvs ∧ kvs.map Prod.fst ∈
+      [["text"], ["tags"], ["choices"], ["needInput"], ["issues"], ["cmdOutput"], ["end"], ["close"]] := by
+  rcases h with ⟨_, rfl⟩ | ⟨_, rfl⟩ | ⟨_, rfl⟩ | rfl | ⟨_, rfl⟩ | ⟨_, rfl⟩ | rfl | rfl <;>
+    exact ⟨_, rfl, by simp⟩
+
+def WellFormedLine (s : String) : Prop :=
+  ∃ j, Json.parse s.toList = some j ∧ DocumentedKind j
+
+def AllOut (ps : List Cli.Piece) : Prop := ∀ p ∈ ps, ∀ s, p = .out s → WellFormedLine s
+
+theorem AllOut_nil : AllOut [] := by intro p hp; cases hp
+
+theorem AllOut_append {a b : List Cli.Piece} (ha : AllOut a) (hb : AllOut b) : AllOut (a ++ b) := by
+  intro p hp
+  rcases List.mem_append.1 hp with h | h
+  · exact ha p h
+  · exact hb p h
+
+theorem AllOut_out {s : String} (h : WellFormedLine s) : AllOut [.out s] := by
+  intro p hp t ht
+  simp only [List.mem_singleton] at hp
+  subst hp; cases ht; exact h
+
+theorem wf_text (t) : WellFormedLine (Cli.fmtText t) := ⟨_, fmtText_parses t, Or.inl ⟨t, rfl⟩⟩
+theorem wf_tags (ts) : WellFormedLine (Cli.fmtTags ts) := ⟨_, fmtTags_parses ts, Or.inr (Or.inl ⟨ts, rfl⟩)⟩
+theorem wf_choices (cs) : WellFormedLine (Cli.fmtChoices cs) :=
+  ⟨_, fmtChoices_parses cs, Or.inr (Or.inr (Or.inl ⟨cs, rfl⟩))⟩
+theorem wf_needInput : WellFormedLine Cli.needInput :=
+  ⟨_, needInput_parses, Or.inr (Or.inr (Or.inr (Or.inl rfl)))⟩
+theorem wf_issues (ms) : WellFormedLine (Cli.fmtIssues ms) :=
+  ⟨_, fmtIssues_parses ms, Or.inr (Or.inr (Or.inr (Or.inr (Or.inl ⟨ms, rfl⟩))))⟩
+theorem wf_cmdOutput (m) : WellFormedLine (Cli.fmtCmdOutput m) :=
+  ⟨_, fmtCmdOutput_parses m, Or.inr (Or.inr (Or.inr (Or.inr (Or.inr (Or.inl ⟨m, rfl⟩)))))⟩
+theorem wf_end : WellFormedLine Cli.endOfStory :=
+  ⟨_, endOfStory_parses, Or.inr (Or.inr (Or.inr (Or.inr (Or.inr (Or.inr (Or.inl rfl))))))⟩
+theorem wf_close : WellFormedLine Cli.closed :=
+  ⟨_, closed_parses, Or.inr (Or.inr (Or.inr (Or.inr (Or.inr (Or.inr (Or.inr rfl))))))⟩
+
+set_option linter.unusedSimpArgs false in
+theorem evaluate_wf (o : Cli.Opts) (hj : o.json = true) (fuel : Nat) (st : Story) (acc : List Cli.Piece)
+    (r : Story × List Cli.Piece) (hacc : AllOut acc) (h : Cli.evaluate o fuel st acc = .ok r) :
+    AllOut r.2 := by
+  induction fuel generalizing st acc with
+  | zero => simp [Cli.evaluate] at h
+  | succ fuel ih =>
+    rw [Cli.evaluate] at h
+    split at h
+    · split at h
+      · simp only [hj] at h
+        refine ih _ _ ?_ h
+        refine AllOut_append (AllOut_append (AllOut_append hacc (AllOut_out (wf_text _))) ?_) ?_
+        · split
+          · exact AllOut_nil
+          · exact AllOut_out (wf_tags _)
+        · split
+          · exact AllOut_nil
+          · exact AllOut_out (wf_issues _)
+      · cases h
+      · cases h
+    · cases h; exact hacc
+
+theorem AllOut_cons {p : Cli.Piece} {b : List Cli.Piece} (ha : AllOut [p]) (hb : AllOut b) :
+    AllOut (p :: b) := AllOut_append ha hb
+
+theorem inputLoop_wf (o : Cli.Opts) (hj : o.json = true) (n fuel : Nat) (st : Story) (inputs : List String)
+    (acc : List Cli.Piece) (r : Option (Story × List String) × List Cli.Piece) (hacc : AllOut acc)
+    (h : Cli.inputLoop o n fuel st inputs acc = .ok r) : AllOut r.2 := by
+  have hp : AllOut [Cli.Piece.out Cli.needInput] := AllOut_out wf_needInput
+  induction fuel generalizing st inputs acc with
+  | zero => simp [Cli.inputLoop] at h
+  | succ fuel ih =>
+    unfold Cli.inputLoop at h
+    simp only [hj] at h
+    split at h
+    · cases h
+      exact AllOut_append hacc (AllOut_cons hp (AllOut_out wf_close))
+    · split at h
+      · exact ih _ _ _ (AllOut_append hacc hp) h
+      · split at h
+        · split at h
+          · exact ih _ _ _ (AllOut_append (AllOut_append hacc hp) AllOut_nil) h
+          · split at h
+            · cases h; exact AllOut_append hacc hp
+            · cases h
+            · cases h
+        · split at h
+          · cases h; exact AllOut_append hacc hp
+          · cases h; exact AllOut_append hacc (AllOut_cons hp (AllOut_out (wf_issues _)))
+          · cases h
+        · exact ih _ _ _ (AllOut_append hacc (AllOut_cons hp (AllOut_out (wf_cmdOutput _)))) h
+        · cases h; exact AllOut_append hacc hp
+        · exact ih _ _ _ (AllOut_append (AllOut_append hacc hp) AllOut_nil) h
+
+theorem play_wf (o : Cli.Opts) (hj : o.json = true) (fuel : Nat) (st : Story) (inputs : List String)
+    (acc : List Cli.Piece) (hacc : AllOut acc) : AllOut (Cli.play o fuel st inputs acc).1 := by
+  induction fuel generalizing st inputs acc with
+  | zero => simpa [Cli.play] using hacc
+  | succ fuel ih =>
+    rw [Cli.play]
+    split
+    · exact hacc
+    · rename_i st1 ps hev
+      have hps : AllOut ps := evaluate_wf o hj _ _ _ _ AllOut_nil hev
+      simp only [hj, ↓reduceIte]
+      split
+      · refine AllOut_append (AllOut_append hacc hps) ?_
+        split
+        · exact AllOut_out wf_end
+        · exact AllOut_nil
+      · have hshown := AllOut_append (AllOut_append hacc hps)
+          (AllOut_out (wf_choices (List.map (fun c => (c.text, c.tags)) st1.currentChoices.1)))
+        split
+        · exact hshown
+        · rename_i ps2 hil
+          exact AllOut_append hshown (inputLoop_wf o hj _ _ _ _ _ _ AllOut_nil hil)
+        · rename_i st3 rest ps2 hil
+          exact ih _ _ _ (AllOut_append hshown (inputLoop_wf o hj _ _ _ _ _ _ AllOut_nil hil))
+
+/-- 4. Every standard-output piece of a whole JSON-mode session — for every story state, every input
+    sequence and every fuel — is a well-formed line of a documented kind. -/
+theorem session_pieces_wellformed (o : Cli.Opts) (st : Story) (inputs : List String) (fuel : Nat)
+    (hj : o.json = true) :
+    ∀ p ∈ (Cli.play o fuel st inputs []).1, ∀ s, p = .out s → WellFormedLine s :=
+  play_wf o hj fuel st inputs [] AllOut_nil
+
+theorem session_wellformed (o : Cli.Opts) (doc : String) (inputs : List String)
+    (hj : o.json = true) :
+    ∀ p ∈ (Cli.session o doc inputs).1, ∀ s, p = .out s → WellFormedLine s := by
+  unfold Cli.session
+  simp only []
+  split
+  · split
+    · exact play_wf o hj _ _ _ [] AllOut_nil
+    · exact AllOut_nil
+    · exact AllOut_nil
+  · exact AllOut_nil
+  · exact AllOut_nil
+
+
+/-! ### 5. non-vacuity -/
+example : Json.parse (Cli.fmtText "a\"b\\c\n\t\u0007é😀").toList =
+    some (.obj [("text", .str "a\"b\\c\n\t\u0007é😀")]) := by
+  rw [show Cli.fmtText "a\"b\\c\n\t\u0007é😀" = "{\"text\": \"a\\\"b\\\\c\\n\\t\\u0007é😀\"}" by decide]
+  simp [Json.parse, parseValue, parseMembers, skipWs, isWs, parseStrBody, dedupKeys, insertKey, hex4, hexVal]
+
+example : Json.parse (Cli.fmtChoices [("x", []), ("y", ["t1", "t2"])]).toList =
+    some (.obj [("choices", .arr [.obj [("text", .str "x")],
+      .obj [("text", .str "y"), ("tags", .arr [.str "t1", .str "t2"]), ("tag_count", .num 2)]])]) := by
+  rw [show Cli.fmtChoices [("x", []), ("y", ["t1", "t2"])] =
+    "{\"choices\": [{\"text\": \"x\"}, {\"text\": \"y\", \"tags\": [\"t1\", \"t2\"], \"tag_count\": 2}]}" by decide]
+  simp [Json.parse, parseValue, parseMembers, parseElems, skipWs, isWs, parseStrBody, dedupKeys, insertKey,
+    parseNumber, takeDigits, Json.isDigit, digitsToNat]
+
+
 end C20
 end Ink
